@@ -751,6 +751,10 @@ func (g *Gen) genUpdateParams(t *rapid.T, w *World, s *Snap) Op {
 	o.CreationFee = pick(t, "creation-fee", []string{"", "100000000stake", "7stake", "3paya,5stake", "2paya"})
 	o.BidFee = pick(t, "bid-fee", []string{"", "", "1stake", "2paya", "1payb,4stake"})
 	o.ExtendedPeriod = pick(t, "ext-period", []uint32{1, 0, 2, 7})
+	if g.W.Extreme && pct(t, 30, "extreme-period") {
+		o.ExtendedPeriod = uint32(pick(t, "extreme-period-value", []int64{365, 36500, 90000, 3_000_000, 4294967295}))
+		g.label("extreme:period")
+	}
 	if pct(t, g.W.PerturbPct*2, "perturb-params") {
 		switch uni(t, "perturb-params-kind", 4) {
 		case 0:
